@@ -398,6 +398,76 @@ def rows_harness(conc_bs, rows_per_level, row_list, ns):
 
 
 # ----------------------------------------------------------------------------------------
+def object_harness(ns, bs, bw, axes):
+    """MLMatrix as an object over a concrete banded structure with symbolic data: expansion, product, data replacement
+    (operation sequence product -> assign new data -> product), construction from a matrix, level reordering"""
+    def dense(S, X):
+        D = np.empty(S.shape, dtype=object); D[...] = 0
+        for tup in itertools.product(*[range(len(b)) for b in S.bidx]):
+            I = J = 0
+            for k in range(S.L):
+                I = I * S.bs[k][0] + int(S.bidx[k][tup[k]][0]); J = J * S.bs[k][1] + int(S.bidx[k][tup[k]][1])
+            D[I, J] = D[I, J] + X[tup]
+        return D
+    def run(c):
+        S = ns['MLStructure'].multi_banded(tuple(bs), tuple(bw))
+        shape = tuple(len(b) for b in S.bidx)
+        X1 = sx.symarray('X', shape); X2 = sx.symarray('Z', shape)
+        x = sx.symarray('x', (S.shape[1],))
+        M = ns['MLMatrix'](S, data=X1)
+        D1 = dense(S, X1); D2 = dense(S, X2)
+        c.check(sx.eq_arrays(np.asarray(M.asmatrix().toarray(), dtype=object), D1), 'MLMatrix.asmatrix = Kronecker placement of the data tensor')
+        c.check(sx.eq_arrays(np.asarray(M.dot(x), dtype=object), D1.dot(x)), 'MLMatrix product = dense definition')
+        M.data = X2
+        c.check(sx.eq_arrays(np.asarray(M.dot(x), dtype=object), D2.dot(x)), 'after assigning new data the product uses the new data')
+        c.check(sx.eq_arrays(np.asarray(M.asmatrix().toarray(), dtype=object), D2), 'after assigning new data asmatrix uses the new data')
+        c.check(sx.eq_arrays(np.asarray(M.dot(x), dtype=object), np.asarray(M.asmatrix().toarray(), dtype=object).dot(x)), 'product and asmatrix agree after the sequence')
+        from symx.symsparse import SpMat
+        M3 = ns['MLMatrix'](S, matrix=SpMat(D1, 'csr'))
+        c.check(sx.eq_arrays(np.asarray(M3.data, dtype=object), X1), 'construction from a matrix extracts the stored entries in data-layout order')
+        if axes is not None:
+            Mr = M3.reorder(axes)
+            Sr = Mr.structure
+            Dr = dense(Sr, np.transpose(X1, axes))
+            c.check(z3.And(z3.BoolVal(tuple(Sr.bs) == tuple(S.bs[a] for a in axes)), sx.eq_arrays(np.asarray(Mr.asmatrix().toarray(), dtype=object), Dr)),
+                    'reorder(axes): levels and data axes permuted consistently')
+        c.witness('object')
+    return run
+
+
+REPLAY_OBJECT = r'''
+import sys, json, itertools, numpy as np
+w = json.load(sys.stdin)
+from pyiga import mlmatrix
+rng = np.random.RandomState(2)
+S = mlmatrix.MLStructure.multi_banded(tuple(w['bs']), tuple(w['bw']))
+shape = tuple(len(b) for b in S.bidx)
+def dense(S, X):
+    D = np.zeros(S.shape)
+    for tup in itertools.product(*[range(len(b)) for b in S.bidx]):
+        I = J = 0
+        for k in range(S.L):
+            I = I * S.bs[k][0] + int(S.bidx[k][tup[k]][0]); J = J * S.bs[k][1] + int(S.bidx[k][tup[k]][1])
+        D[I, J] += X[tup]
+    return D
+X1 = rng.rand(*shape); X2 = rng.rand(*shape); x = rng.rand(S.shape[1])
+bad = []
+M = mlmatrix.MLMatrix(S, data=X1)
+if not np.allclose(M.asmatrix().toarray(), dense(S, X1)): bad.append('asmatrix')
+if not np.allclose(M.dot(x), dense(S, X1) @ x): bad.append('product')
+M.data = X2
+if not np.allclose(M.dot(x), dense(S, X2) @ x): bad.append('product after data assignment')
+if not np.allclose(M.asmatrix().toarray(), dense(S, X2)): bad.append('asmatrix after data assignment')
+M3 = mlmatrix.MLMatrix(S, matrix=dense(S, X1))
+if not np.allclose(M3.data, X1): bad.append('from matrix')
+if w.get('axes') is not None:
+    Mr = M3.reorder(tuple(w['axes']))
+    if not np.allclose(Mr.asmatrix().toarray(), dense(Mr.structure, np.transpose(X1, w['axes']))): bad.append('reorder')
+print(json.dumps({'reproduced': bool(bad), 'bad': bad}))
+'''
+
+
+# ----------------------------------------------------------------------------------------
 def main():
     run = Run(PID, level='other', description='Index arithmetic of multi-level matrices over symbolic per-level patterns.')
     thorough = run.tier == 'thorough'
@@ -455,6 +525,20 @@ def main():
                 key = '%s:nonzero' % (fn if fn != 'structure' else 'MLStructure.nonzero(L=%d)' % L)
                 run.report(key, '%s(lower_tri=%s) on bs=%s bidx=%s returns %s, Kronecker pattern in data-layout order is %s'
                            % (fn, lower, cbs, cbz, r['got'], r['expected']), {'kind': 'nonzero', **w}, r['reproduced'])
+
+    # ---- (2b) MLMatrix objects: expansion, product, data replacement, construction from a matrix, reorder
+    if run.want('object'):
+        ocfgs = [((3,), (1,), None), ((3, 2), (1, 1), (1, 0)), ((2, 2, 2), (1, 1, 1), (2, 0, 1)), ((2, 2, 2, 2), (1, 1, 1, 1), None)]
+        if thorough:
+            ocfgs += [((4, 3), (2, 1), None), ((3, 2, 2), (1, 1, 1), (1, 2, 0)), ((2, 2, 2, 2), (1, 1, 1, 1), (3, 1, 0, 2)), ((4,), (2,), None)]
+        for bs_, bw_, axes in ocfgs:
+            st = sx.explore(object_harness(ns, bs_, bw_, axes), timeout_ms=60000, stop_at_first=False)
+            bound = {'levels': len(bs_), 'block sizes (concrete)': list(bs_), 'bandwidths': list(bw_), 'data': 'symbolic', 'reorder': list(axes) if axes else None}
+            run.absorb(st, 'mlmatrix-object', bound=bound, sample={'obligation': 'MLMatrix object', **bound})
+            if st.cex:
+                w = {'kind': 'object', 'bs': list(bs_), 'bw': list(bw_), 'axes': list(axes) if axes else None}
+                r = realbuild.run_real(REPLAY_OBJECT, w)
+                run.report('MLMatrix:%s' % ','.join(r['bad'])[:60], 'MLMatrix over multi_banded(%s,%s): solver: %s; real build: %s' % (bs_, bw_, sorted({cx['name'] for cx in st.cex})[:4], r['bad']), w, r['reproduced'])
 
     # ---- (2a) matvec kernels
     if run.want('matvec'):
@@ -648,7 +732,7 @@ def validate_translation(run):
 
 def replay_file(path):
     w = json.load(open(path))['witness']
-    code = {'nonzero': REPLAY_NONZERO, 'matvec': REPLAY_MATVEC, 'sparsity': REPLAY_SPARSITY, 'rows': REPLAY_ROWS}[w['kind']]
+    code = {'nonzero': REPLAY_NONZERO, 'matvec': REPLAY_MATVEC, 'sparsity': REPLAY_SPARSITY, 'rows': REPLAY_ROWS, 'object': REPLAY_OBJECT}[w['kind']]
     r = realbuild.run_real(code, w)
     print(json.dumps(r))
     print('REPRODUCED' if r['reproduced'] else 'NOT-REPRODUCED')
